@@ -3,6 +3,7 @@ pub mod api;
 pub mod bfs;
 pub mod bulk;
 pub mod cli;
+pub mod cost;
 pub mod faults;
 pub mod gen;
 pub mod hist;
@@ -12,6 +13,7 @@ pub mod ops;
 pub mod rng;
 pub mod serde_chk;
 pub mod snap;
+pub mod twins;
 pub mod types;
 
 /// replay of the non-history modes (iterator scripts, crash points, ...)
@@ -21,6 +23,8 @@ pub fn replay_other(mode: &str, rp: &serde_json::Value, a: &cli::Args, sink: &mu
         "iters" => iters::replay(rp, a, sink, journal),
         "serde" => serde_chk::replay(rp, sink),
         "faults" => faults::replay(rp, sink, journal),
+        "eq" => twins::replay_eq(rp, sink),
+        "cap" => twins::replay_cap(rp, sink, journal),
         _ => {
             eprintln!("replay: unknown mode {}", mode);
             2
@@ -52,6 +56,11 @@ pub fn worker_main() {
         "bulk" => bulk::mode_bulk(&a),
         "serde" => serde_chk::mode_serde(&a),
         "faults" => faults::mode_faults(&a),
+        "cost" => cost::mode_cost(&a),
+        "eq" => twins::mode_eq(&a),
+        "cap" => twins::mode_cap(&a),
+        "hashers" => twins::mode_hashers(&a),
+        "costprobe" => cost::mode_costprobe(&a),
         other => {
             eprintln!("unknown mode {}", other);
             2
